@@ -2,6 +2,7 @@
 import itertools
 
 import networkx as nx
+import numpy as np
 
 import strawberryfields as sf
 from strawberryfields import ops
@@ -15,10 +16,14 @@ COQ_DIRS = ["C04"]
 COQ_TARGETS = ["Base/Reorder.vo", "C04/Model.vo", "C04/Proofs.vo"]
 PROPERTIES_FILE = "Properties/C04.v"
 ALLOWED_AXIOMS = set()
-RULE = ("command sequences over 1-4 modes built from single/two-mode gates, measurements, gates whose parameter is a measured value "
-        "(dependency on another wire), marked = MeasureFock or by random predicate; exhaustive over a 2-3 mode alphabet up to a length bound "
-        "plus random longer ones; for each: grid and DAG edge set compared exactly with the model, DAG_to_list / optimize-free round trip / "
-        "group_operations / GBS.compile outputs validated by the proved Coq validators, plus random legal and illegal linearisations fed to the validator; "
+RULE = ("command sequences over 1-13 modes (register indices >= 10 included) built from single/two/k-mode gates, homodyne / heterodyne / post-selected / "
+        "multi-mode Fock measurements, gates whose parameters are measured values of one or several other modes (in one expression or in two parameters), "
+        "New-created and deleted modes (also the mode a parameter was measured on), hand-inserted commands without any dependency; marked = MeasureFock or "
+        "one of several predicates; exhaustive over a 2-3 mode alphabet up to a length bound plus random longer ones; for each: grid and DAG edge set "
+        "(grid_to_DAG and list_to_DAG) compared exactly with the model, DAG_to_list / repeated round trips / group_operations (two predicates, leading part "
+        "maximal) / Program.optimize / Program.compile (gaussian, fock, gbs; optimize on and off) / gaussian_merge survivors validated by the proved Coq "
+        "validators, Program.equivalence under legal and illegal re-linearisations, GBS.compile against the model's collection and against an "
+        "independent accept/reject decision; plus random legal and illegal linearisations fed to the validator; "
         "non-trivial = DAG admits >= 2 linearisations and has a measured-parameter dependency or a marked command")
 TRUSTED_BASE = [
     "Coq 8.16.1 kernel; vm_compute for validators and model evaluation",
@@ -33,26 +38,79 @@ MANIFEST_TEXT = ("Proved for all circuits and every legal linearisation: same co
 
 SINGLE = ["Rgate", "Sgate", "Dgate"]
 
+# kind -> (class name in the compiled circuit, merge family of a plain single-mode gate or None)
+KINDS = {
+    "g1": ("Rgate", "R"), "g1i": ("Rgate", "R"), "s1": ("Sgate", "S"), "d1": ("Dgate", "D"), "k1": ("Kgate", "K"), "v1": ("Vgate", "V"),
+    "g2": ("BSgate", None), "g3": ("Interferometer", None),
+    "mx": ("MeasureHomodyne", None), "mxs": ("MeasureHomodyne", None), "mhd": ("MeasureHeterodyne", None), "mf": ("MeasureFock", None),
+    "gp": ("Rgate", None), "gd": ("Dgate", None), "g2p": ("BSgate", None),
+    "new": ("_New_modes", None), "del": ("_Delete", None), "nd": ("Rgate", None),
+}
+MEASURE = ("mx", "mxs", "mhd", "mf")
+
+
+def dep_list(dep):
+    if dep is None:
+        return []
+    if isinstance(dep, (list, tuple)):
+        return list(dep)
+    return [dep]
+
+
+def par_expr(regs, deps):
+    e = 0
+    for j, d in enumerate(deps):
+        e = e + (j + 1) * regs[d].par
+    return e * 0.5
+
 
 def build(n, cmds):
-    """cmds: list of (kind, modes, dep) ; kind in g1,g2,mx,mf,gp(gate with measured parameter from wire dep).
-    Returns (prog, specs) or None if the front end rejects the sequence."""
+    """cmds: list of (kind, modes, dep); dep = None, a mode, or a list of modes whose measured values feed the parameter(s).
+    Kinds: see KINDS ("nd" = command without any dependency, inserted by circuit_of, not by the front end).
+    Returns the Program, or None if the front end rejects the sequence."""
     prog = sf.Program(n)
     try:
         with prog.context as q:
+            regs = list(q)
             for kind, modes, dep in cmds:
+                deps = dep_list(dep)
                 if kind == "g1":
-                    ops.Rgate(0.3) | q[modes[0]]
+                    ops.Rgate(0.3) | regs[modes[0]]
+                elif kind == "g1i":
+                    ops.Rgate(-0.3) | regs[modes[0]]
+                elif kind == "s1":
+                    ops.Sgate(0.2) | regs[modes[0]]
+                elif kind == "d1":
+                    ops.Dgate(0.2, 0.1) | regs[modes[0]]
+                elif kind == "k1":
+                    ops.Kgate(0.1) | regs[modes[0]]
+                elif kind == "v1":
+                    ops.Vgate(0.1) | regs[modes[0]]
                 elif kind == "g2":
-                    ops.BSgate(0.4, 0.1) | (q[modes[0]], q[modes[1]])
+                    ops.BSgate(0.4, 0.1) | (regs[modes[0]], regs[modes[1]])
+                elif kind == "g3":
+                    ops.Interferometer(np.eye(len(modes))) | tuple(regs[m] for m in modes)
                 elif kind == "mx":
-                    ops.MeasureX | q[modes[0]]
+                    ops.MeasureX | regs[modes[0]]
+                elif kind == "mxs":
+                    ops.MeasureHomodyne(0.0, select=0.1) | regs[modes[0]]
+                elif kind == "mhd":
+                    ops.MeasureHD | regs[modes[0]]
                 elif kind == "mf":
-                    ops.MeasureFock() | tuple(q[m] for m in modes)
+                    ops.MeasureFock() | tuple(regs[m] for m in modes)
                 elif kind == "gp":
-                    ops.Rgate(q[dep].par * 0.5) | q[modes[0]]
+                    ops.Rgate(par_expr(regs, deps)) | regs[modes[0]]
+                elif kind == "gd":
+                    ops.Dgate(regs[deps[0]].par, regs[deps[1]].par if len(deps) > 1 else 0.3) | regs[modes[0]]
+                elif kind == "g2p":
+                    ops.BSgate(par_expr(regs, deps), 0.1) | (regs[modes[0]], regs[modes[1]])
+                elif kind == "new":
+                    refs = ops.New(len(modes))
+                    if [r.ind for r in refs] != list(modes):
+                        raise ValueError("inconsistent New")
+                    regs += list(refs)
                 elif kind == "del":
-                    ops.Del | q[modes[0]]
+                    ops.Del | tuple(regs[m] for m in modes)
                 else:
                     raise ValueError(kind)
     except Exception:
@@ -60,11 +118,28 @@ def build(n, cmds):
     return prog
 
 
+def circuit_of(n, cmds):
+    """(prog, circuit as a list of Commands aligned with cmds) — commands without dependencies are inserted by hand."""
+    prog = build(n, [c for c in cmds if c[0] != "nd"])
+    if prog is None:
+        return None, None
+    circ = list(prog.circuit)
+    for i, c in enumerate(cmds):
+        if c[0] == "nd":
+            circ.insert(i, pu.Command(ops.Rgate(0.1), []))
+    if len(circ) != len(cmds):
+        return None, None
+    return prog, circ
+
+
 def spec_deps(c):
     kind, modes, dep = c
+    if kind == "nd":
+        return []
     d = list(modes)
-    if kind == "gp" and dep not in d:
-        d.append(dep)
+    for x in dep_list(dep):
+        if x not in d:
+            d.append(x)
     return d
 
 
@@ -75,6 +150,99 @@ def enc_cmd(i, c, mark):
 def enc_list(idxs, cmds, marks):
     return coq.coq_list([enc_cmd(i, cmds[i], marks[i]) for i in idxs])
 
+
+# ------------------------------------------------------------------------------------------------------
+# the harness's own reading of a spec (used for oracles, signatures and replays; the model comparison is done in Coq)
+
+def py_wires(cmds):
+    w = {}
+    for i, c in enumerate(cmds):
+        for m in spec_deps(c):
+            w.setdefault(m, []).append(i)
+    return w
+
+
+def py_edges(cmds):
+    e = set()
+    for q in py_wires(cmds).values():
+        e.update(zip(q, q[1:]))
+    return sorted(e)
+
+
+def py_check_lin(cmds, out):
+    """None if `out` (indices) is a dependency-respecting permutation of the commands with dependencies, else the reason."""
+    deps = [spec_deps(c) for c in cmds]
+    nodes = [i for i in range(len(cmds)) if deps[i]]
+    if len(set(out)) != len(out):
+        return "command-duplicated"
+    if set(nodes) - set(out):
+        return "command-lost"
+    if set(out) - set(nodes):
+        return "command-extra"
+    for w, seq in py_wires(cmds).items():
+        if [i for i in out if w in deps[i]] != seq:
+            return "wire-order"
+    return None
+
+
+def descendants(cmds):
+    """idx -> set of strict descendants in the spec DAG."""
+    G = nx.DiGraph()
+    G.add_nodes_from(range(len(cmds)))
+    G.add_edges_from(py_edges(cmds))
+    return {i: nx.descendants(G, i) for i in G.nodes}
+
+
+def leading_part(cmds, marks):
+    """The leading part group_operations must return (as a set): the unmarked commands no marked command precedes.
+    (A lexicographic topological sort with the unmarked commands first takes every available unmarked command before
+    any marked one, so this set does not depend on how ties are broken.)"""
+    desc = descendants(cmds)
+    tainted = set()
+    for i, m in enumerate(marks):
+        if m:
+            tainted.add(i)
+            tainted |= desc[i]
+    return {i for i in range(len(cmds)) if spec_deps(cmds[i]) and i not in tainted}
+
+
+def gbs_oracle(cmds):
+    """None if the circuit is a GBS circuit (every Fock measurement can be moved to the end, no mode is measured twice), else why not."""
+    mf = [i for i, c in enumerate(cmds) if c[0] == "mf"]
+    if not mf:
+        return "no-fock-measurement"
+    desc = descendants(cmds)
+    for i in mf:
+        if any(cmds[j][0] != "mf" for j in desc[i]):
+            return "operation-after-measurement"
+    seen = set()
+    for i in mf:
+        if seen & set(cmds[i][1]):
+            return "measured-twice"
+        seen |= set(cmds[i][1])
+    return None
+
+
+def family(c):
+    """Merge family of a command the optimiser may merge with a neighbour: plain single-mode gates, and single-mode gates whose
+    parameter is a measured value of the very mode they act on (they sit on one wire only).  None: never merged."""
+    if c[0] in ("gp", "gd"):
+        return ("R" if c[0] == "gp" else "D") if set(dep_list(c[2])) <= set(c[1]) else None
+    return KINDS[c[0]][1]
+
+
+def merge_free(cmds):
+    """No two single-mode gates of one family are neighbours on a wire: the optimiser must return a permutation."""
+    for q in py_wires(cmds).values():
+        for a, b in zip(q, q[1:]):
+            fa, fb = family(cmds[a]), family(cmds[b])
+            if fa is not None and fa == fb:
+                return False
+    return True
+
+
+# ------------------------------------------------------------------------------------------------------
+# generators
 
 def random_cmds(rng, n, length):
     out = []
@@ -123,6 +291,90 @@ def random_cmds(rng, n, length):
     return out
 
 
+def pick_register(rng):
+    """(n, focus): register size and the modes the circuit lives on; about one third use indices >= 10 next to one-digit ones."""
+    if rng.random() < 0.35:
+        n = rng.randint(11, 13)
+        k = rng.randint(2, 5)
+        focus = set(rng.sample(range(n), k))
+        focus.add(rng.randint(10, n - 1))
+        focus.add(rng.randint(2, 9))
+        return n, sorted(focus)
+    n = rng.randint(1, 5)
+    return n, list(range(n))
+
+
+RICH_WEIGHTS = {"utils": [("single", 18), ("g2", 14), ("g3", 5), ("mx", 8), ("mhd", 3), ("mxs", 2), ("mf", 10), ("gp", 13), ("gd", 5), ("g2p", 5),
+                          ("new", 5), ("del", 6), ("nd", 2)],
+                "prog": [("single", 26), ("g2", 14), ("g3", 4), ("mx", 8), ("mhd", 3), ("mxs", 2), ("mf", 8), ("gp", 12), ("gd", 5), ("g2p", 5),
+                         ("new", 4), ("del", 5)],
+                "compile": [("single", 26), ("g2", 14), ("mx", 8), ("mxs", 2), ("mf", 8), ("gp", 12), ("gd", 5), ("g2p", 5), ("new", 4), ("del", 5)]}
+
+
+def rich_cmds(rng, n, focus, length, palette="utils", singles=("g1", "g1i", "s1", "d1", "k1", "v1")):
+    """Random command sequence accepted by the front end: every kind of KINDS, measured parameters of one to three modes,
+    New-created modes, deletions (also of a mode whose measured value has been used)."""
+    names, weights = zip(*RICH_WEIGHTS[palette])
+    live = list(focus)
+    total = n
+    measured = []  # live modes that have been measured (a parameter can only be taken from an active reference)
+    out = []
+    for _ in range(length):
+        kind = rng.choices(names, weights)[0]
+        if kind in ("gp", "gd", "g2p") and not measured:
+            kind = "single"
+        if kind in ("g2", "g2p") and len(live) < 2:
+            kind = "single"
+        if kind == "g3" and len(live) < 3:
+            kind = "single"
+        if kind == "del" and len(live) < 2:
+            kind = "single"
+        if kind == "single":
+            out.append((rng.choice(singles), [rng.choice(live)], None))
+        elif kind == "g2":
+            out.append(("g2", rng.sample(live, 2), None))
+        elif kind == "g3":
+            out.append(("g3", rng.sample(live, rng.randint(3, min(4, len(live)))), None))
+        elif kind in ("mx", "mhd", "mxs"):
+            m = rng.choice(live)
+            out.append((kind, [m], None))
+            if m not in measured:
+                measured.append(m)
+        elif kind == "mf":
+            ms = rng.sample(live, rng.randint(1, min(4, len(live))))
+            out.append(("mf", ms, None))
+            measured += [m for m in ms if m not in measured]
+        elif kind == "gp":
+            ds = rng.sample(measured, rng.randint(1, min(3, len(measured))))
+            out.append(("gp", [rng.choice(live)], ds[0] if len(ds) == 1 and rng.random() < 0.5 else ds))
+        elif kind == "gd":
+            ds = rng.sample(measured, rng.randint(1, min(2, len(measured))))
+            out.append(("gd", [rng.choice(live)], ds))
+        elif kind == "g2p":
+            ds = rng.sample(measured, rng.randint(1, min(2, len(measured))))
+            out.append(("g2p", rng.sample(live, 2), ds))
+        elif kind == "new":
+            k = rng.randint(1, 2)
+            ms = list(range(total, total + k))
+            total += k
+            live += ms
+            out.append(("new", ms, None))
+        elif kind == "del":
+            ms = rng.sample(live, 1 if len(live) < 3 or rng.random() < 0.7 else 2)
+            # prefer deleting a mode whose measured value has been used by an earlier gate
+            used = [d for c in out for d in dep_list(c[2]) if d in live]
+            if used and rng.random() < 0.5:
+                ms = [rng.choice(used)]
+            for m in ms:
+                live.remove(m)
+                if m in measured:
+                    measured.remove(m)
+            out.append(("del", ms, None))
+        elif kind == "nd":
+            out.append(("nd", [], None))
+    return out
+
+
 def alphabet(n):
     al = [("g1", [m], None) for m in range(n)]
     al += [("g2", [a, b], None) for a in range(n) for b in range(n) if a != b]
@@ -157,9 +409,31 @@ def random_topo(rng, n_cmds, edges):
     return out
 
 
-def impl_views(prog):
-    """Run the implementation's conversions; everything is reported as command indices."""
-    circ = prog.circuit
+PREDICATES = ["mf", "rand", "g2", "measure", "param", "all", "none", "one"]
+
+
+def make_marks(rng, cmds, mode):
+    if mode == "mf":
+        return [c[0] == "mf" for c in cmds]
+    if mode == "rand":
+        return [rng.random() < 0.3 for _ in cmds]
+    if mode == "g2":
+        return [c[0] == "g2" for c in cmds]
+    if mode == "measure":
+        return [c[0] in MEASURE for c in cmds]
+    if mode == "param":
+        return [c[0] in ("gp", "gd", "g2p") for c in cmds]
+    if mode == "all":
+        return [True for _ in cmds]
+    if mode == "none":
+        return [False for _ in cmds]
+    k = rng.randrange(len(cmds)) if cmds else 0
+    return [i == k for i in range(len(cmds))]
+
+
+def impl_views(circ, rounds=0):
+    """Run the implementation's conversions on a list of Commands; everything is reported as command indices."""
+    circ = list(circ)
     idx = {id(c): i for i, c in enumerate(circ)}
     if len(idx) != len(circ):
         raise AssertionError("same Command object twice")
@@ -168,13 +442,52 @@ def impl_views(prog):
     dag = pu.grid_to_DAG(grid)
     edges = sorted((idx[id(a)], idx[id(b)]) for a, b in dag.edges())
     nodes = sorted(idx[id(a)] for a in dag.nodes())
+    dag_l = pu.list_to_DAG(circ)
+    edges_l = sorted((idx[id(a)], idx[id(b)]) for a, b in dag_l.edges())
+    nodes_l = sorted(idx[id(a)] for a in dag_l.nodes())
     out = [idx[id(c)] for c in pu.DAG_to_list(dag)]
     # second round trip
-    out2 = [idx[id(c)] for c in pu.DAG_to_list(pu.list_to_DAG(pu.DAG_to_list(dag)))]
-    return grid_ids, edges, nodes, out, out2, idx
+    cur = pu.DAG_to_list(pu.list_to_DAG(pu.DAG_to_list(dag)))
+    out2 = [idx[id(c)] for c in cur]
+    # further round trips, alternating the two routes list -> DAG
+    for k in range(rounds):
+        cur = pu.DAG_to_list(pu.grid_to_DAG(pu.list_to_grid(cur)) if k % 2 else pu.list_to_DAG(cur))
+    out3 = [idx[id(c)] for c in cur]
+    return {"grid": grid_ids, "edges": edges, "nodes": nodes, "edges_l": edges_l, "nodes_l": nodes_l, "outs": [out, out2, out3], "idx": idx}
 
 
-def correspondence(ctx):
+def impl_group(circ, idx, marks):
+    """group_operations under the predicate "the operation belongs to a marked command".  Operations such as MeasureX are shared
+    objects, so marking one command marks every command with the same operation: the effective marks are returned."""
+    pred_ids = {id(circ[i].op) for i in range(len(circ)) if marks[i]}
+    A, B, C = pu.group_operations(circ, lambda op: id(op) in pred_ids)
+    eff = [id(c.op) in pred_ids for c in circ]
+    return eff, ([idx[id(c)] for c in A], [idx[id(c)] for c in B], [idx[id(c)] for c in C])
+
+
+COQ_HEAD = ["From Coq Require Import List Arith Bool.", "Import ListNotations.", "From SFV Require Import Base.Reorder C04.Model."]
+
+
+def coq_check_lins(ctx, name, jobs):
+    """jobs: list of (cmds, out idx list). Returns the verdicts of the proved validator check_linearisation (None if Coq failed)."""
+    if not jobs:
+        return []
+    verdicts = []
+    for si in range(0, len(jobs), 500):
+        rows = []
+        for cmds, out in jobs[si:si + 500]:
+            mk = [False] * len(cmds)
+            rows.append("check_linearisation %s %s" % (enc_list(list(range(len(cmds))), cmds, mk), enc_list(out, cmds, mk)))
+        text = "\n".join(COQ_HEAD + ["Definition cases := [", ";\n".join(rows) + "].", "Eval vm_compute in cases."])
+        ok, vals, raw = ctx.coq_eval("%s_%d" % (name, si // 500), text)
+        if not ok:
+            ctx.obligation("correspondence:%s:shard%d" % (name, si // 500), False, raw)
+            return None
+        verdicts += list(vals[0])
+    return verdicts
+
+
+def lin_cases(ctx):
     rng = ctx.rng
     cases = []
     # exhaustive small scope
@@ -183,50 +496,65 @@ def correspondence(ctx):
         al = alphabet(n)
         for length in range(0, L + 1):
             for seq in itertools.product(al, repeat=length):
-                cases.append((n, list(seq)))
+                cases.append((n, list(seq), "exh"))
     n_exh = len(cases)
     for _ in range(ctx.budget(250, 2500)):
         n = rng.randint(1, 5)
-        cases.append((n, random_cmds(rng, n, rng.randint(1, 14))))
+        cases.append((n, random_cmds(rng, n, rng.randint(1, 14)), "rand"))
+    for _ in range(ctx.budget(350, 3500)):
+        n, focus = pick_register(rng)
+        cases.append((n, rich_cmds(rng, n, focus, rng.randint(1, 14)), "rich"))
     ctx.extra["exhaustive_cases_enumerated"] = n_exh
+    return cases
+
+
+def correspondence(ctx):
+    rng = ctx.rng
     items = []  # per valid case: dict
-    for n, cmds in cases:
-        prog = build(n, cmds)
+    for n, cmds, fam in lin_cases(ctx):
+        cmds = [tuple(c) for c in cmds]
+        prog, circ = circuit_of(n, cmds)
         if prog is None:
             ctx.hist["rejected-by-frontend"] = ctx.hist.get("rejected-by-frontend", 0) + 1
             continue
+        data = {"check": "lin", "n": n, "cmds": cmds}
         try:
-            grid_ids, edges, nodes, out, out2, idx = impl_views(prog)
+            v = impl_views(circ, rounds=0 if fam == "exh" else rng.randint(1, 4))
         except Exception as e:
-            ctx.counterexample("reorder:raises:%s" % type(e).__name__, "conversion raised %r" % e, {"check": "lin", "n": n, "cmds": cmds})
+            ctx.counterexample("reorder:raises:%s" % type(e).__name__, "conversion raised %r" % e, data)
             continue
-        marks_mf = [c[0] == "mf" for c in cmds]
-        mode = rng.choice(["mf", "rand", "g2"])
-        marks = marks_mf if mode == "mf" else [rng.random() < 0.3 for _ in cmds] if mode == "rand" else [c[0] == "g2" for c in cmds]
-        circ = prog.circuit
-        pred_ids = {id(circ[i].op) for i in range(len(cmds)) if marks[i]}
-        try:
-            A, B, C = pu.group_operations(circ, lambda op: id(op) in pred_ids)
-            grp = ([idx[id(c)] for c in A], [idx[id(c)] for c in B], [idx[id(c)] for c in C])
-        except Exception as e:
-            ctx.counterexample("group:raises:%s" % type(e).__name__, "group_operations raised %r" % e, {"check": "lin", "n": n, "cmds": cmds})
+        modes = [rng.choice(["mf", "rand", "g2"])] if fam == "exh" else ["mf" if rng.random() < 0.5 else "measure", rng.choice(PREDICATES)]
+        grps = []
+        failed = False
+        for mode in modes:
+            marks = make_marks(rng, cmds, mode)
+            try:
+                grps.append(impl_group(circ, v["idx"], marks))
+            except Exception as e:
+                ctx.counterexample("group:raises:%s" % type(e).__name__, "group_operations raised %r" % e, dict(data, marks=marks))
+                failed = True
+                break
+        if failed:
             continue
-        items.append({"n": n, "cmds": cmds, "grid": grid_ids, "edges": edges, "nodes": nodes, "out": out, "out2": out2, "marks": marks, "grp": grp})
+        v.update({"n": n, "cmds": cmds, "grps": grps, "fam": fam})
+        items.append(v)
     # model side
-    bad_total = 0
     for si in range(0, len(items), 400):
         sh = items[si:si + 400]
-        lines = ["From Coq Require Import List Arith Bool.", "Import ListNotations.", "From SFV Require Import Base.Reorder C04.Model.",
-                 "Definition sort_pairs (l : list (nat * nat)) := l.",
-                 "Definition report (ls out out2 A_ B_ C_ : list cmd) :=",
-                 "  (map (fun w => (w, wire_ids ls w)) (all_wires ls), edges_ids ls, ids (nodes cmd cdeps ls), check_linearisation ls out, check_linearisation ls out2, check_group ls A_ B_ C_).",
-                 "Definition cases := ["]
+        lines = COQ_HEAD + [
+            "Definition report (ls : list cmd) (outs : list (list cmd)) (grps : list (list cmd * list cmd * list cmd * list cmd)) :=",
+            "  (map (fun w => (w, wire_ids ls w)) (all_wires ls), edges_ids ls, ids (nodes cmd cdeps ls), map (check_linearisation ls) outs,",
+            "   map (fun g => match g with (s, a, b, c) => check_group s a b c end) grps).",
+            "Definition cases := ["]
         rows = []
         for it in sh:
-            cm, mk = it["cmds"], it["marks"]
+            cm = it["cmds"]
             allidx = list(range(len(cm)))
-            rows.append("report %s %s %s %s %s %s" % (enc_list(allidx, cm, mk), enc_list(it["out"], cm, mk), enc_list(it["out2"], cm, mk),
-                                                      enc_list(it["grp"][0], cm, mk), enc_list(it["grp"][1], cm, mk), enc_list(it["grp"][2], cm, mk)))
+            mk0 = it["grps"][0][0]
+            outs = coq.coq_list([enc_list(o, cm, mk0) for o in it["outs"]])
+            grps = coq.coq_list(["(%s, %s, %s, %s)" % (enc_list(allidx, cm, mk), enc_list(g[0], cm, mk), enc_list(g[1], cm, mk), enc_list(g[2], cm, mk))
+                                 for mk, g in it["grps"]])
+            rows.append("report %s %s %s" % (enc_list(allidx, cm, mk0), outs, grps))
         lines.append(";\n".join(rows) + "].")
         lines.append("Eval vm_compute in cases.")
         ok, vals, raw = ctx.coq_eval("cases_lin_%d" % (si // 400), "\n".join(lines))
@@ -234,39 +562,57 @@ def correspondence(ctx):
             ctx.obligation("correspondence:reorder:shard%d" % (si // 400), False, raw)
             return
         for it, val in zip(sh, vals[0]):
-            grid_m, edges_m, nodes_m, ok_out, ok_out2, ok_grp = val
+            grid_m, edges_m, nodes_m, ok_outs, ok_grps = val
             grid_m = {w: ids for w, ids in grid_m}
             edges_m = sorted(set(tuple(e) for e in edges_m))
-            nlin = count_linearisations(len(it["cmds"]), it["edges"])
-            nontriv = nlin >= 2 and (any(c[0] == "gp" for c in it["cmds"]) or any(it["marks"]))
-            ctx.case({"n": it["n"], "cmds": it["cmds"], "marks": it["marks"]}, nontrivial=nontriv, bucket="len%d" % min(len(it["cmds"]), 8))
-            data = {"check": "lin", "n": it["n"], "cmds": it["cmds"], "marks": it["marks"]}
+            cmds = it["cmds"]
+            nlin = count_linearisations(len(cmds), it["edges"])
+            anymark = any(any(mk) for mk, _ in it["grps"])
+            nontriv = nlin >= 2 and (any(c[0] in ("gp", "gd", "g2p") for c in cmds) or anymark)
+            big = any(m >= 10 for c in cmds for m in spec_deps(c))
+            ctx.case({"n": it["n"], "cmds": cmds, "marks": it["grps"][0][0]}, nontrivial=nontriv,
+                     bucket="%s-len%d%s" % (it["fam"], min(len(cmds), 8), "-ge10" if big else ""))
+            data = {"check": "lin", "n": it["n"], "cmds": cmds, "marks": it["grps"][0][0]}
             if {w: q for w, q in it["grid"].items() if q} != {w: q for w, q in grid_m.items() if q}:
                 ctx.counterexample("grid:differs", "list_to_grid does not put each command on exactly its dependency wires in order: impl %s vs model %s" % (it["grid"], grid_m), data)
-                bad_total += 1
                 continue
             if sorted(set(it["edges"])) != edges_m:
                 ctx.counterexample("dag:edges-differ", "grid_to_DAG edges %s differ from consecutive-on-a-wire pairs %s" % (it["edges"], edges_m), data)
-                bad_total += 1
                 continue
             if sorted(nodes_m) != it["nodes"]:
                 ctx.counterexample("dag:nodes-differ", "DAG nodes %s differ from commands with dependencies %s" % (it["nodes"], nodes_m), data)
                 continue
-            if sorted(it["nodes"]) != list(range(len(it["cmds"]))):
-                ctx.counterexample("dag:commands-lost", "commands without any dependency wire are dropped by the list->DAG->list round trip", data)
-            if not ok_out or not ok_out2:
-                ctx.counterexample("toposort:order-violated", "DAG_to_list output %s (or its re-sorted form %s) is not a dependency-respecting permutation of the input" % (it["out"], it["out2"]), data)
-            if not ok_grp:
-                ctx.counterexample("group:invalid", "group_operations returned A=%s B=%s C=%s violating the promised partition / order" % it["grp"], data)
+            if sorted(set(it["edges_l"])) != edges_m or it["nodes_l"] != sorted(nodes_m):
+                ctx.counterexample("list_to_DAG:differs", "list_to_DAG gives edges %s / nodes %s, the model %s / %s" % (it["edges_l"], it["nodes_l"], edges_m, sorted(nodes_m)), data)
+                continue
+            with_deps = [i for i in range(len(cmds)) if spec_deps(cmds[i])]
+            if sorted(it["nodes"]) != with_deps:
+                ctx.counterexample("dag:commands-lost", "commands with a dependency wire are dropped by the list->DAG->list round trip", data)
+            if not all(ok_outs):
+                why = next((py_check_lin(cmds, o) for o, okk in zip(it["outs"], ok_outs) if not okk), None)
+                ctx.counterexample("toposort:order-violated", "DAG_to_list output %s (or a re-sorted form %s / %s) is not a dependency-respecting permutation of the input (%s)"
+                                   % (it["outs"][0], it["outs"][1], it["outs"][2], why), data)
+            for (mk, g), okg in zip(it["grps"], ok_grps):
+                gdata = dict(data, marks=mk)
+                if not okg:
+                    ctx.counterexample("group:invalid", "group_operations returned A=%s B=%s C=%s violating the promised partition / order (marks %s)" % (g + (mk,)), gdata)
+                    break
+                lead = leading_part(cmds, mk)
+                if set(g[0]) != lead:
+                    ctx.disagreement("group:leading-part-not-maximal", "group_operations returned A=%s although exactly the unmarked commands %s have no marked "
+                                     "command before them (marks %s): commands that can be moved in front of the marked ones were left behind, or the reverse"
+                                     % (g[0], sorted(lead), mk), gdata)
+                    break
     ctx.traces += len(items)
     # validator completeness / discrimination on random legal and illegal linearisations
-    lines = ["From Coq Require Import List Arith Bool.", "Import ListNotations.", "From SFV Require Import Base.Reorder C04.Model.", "Definition cases := ["]
+    lines = COQ_HEAD + ["Definition cases := ["]
     rows, expect = [], []
     pool = [it for it in items if len(it["cmds"]) >= 3]
     for _ in range(min(ctx.budget(150, 1000), len(pool))):
         it = rng.choice(pool)
-        cm, mk = it["cmds"], it["marks"]
-        lin = random_topo(rng, len(cm), it["edges"])
+        cm, mk = it["cmds"], it["grps"][0][0]
+        with_deps = [i for i in range(len(cm)) if spec_deps(cm[i])]
+        lin = [i for i in random_topo(rng, len(cm), it["edges"]) if i in with_deps]
         rows.append("check_linearisation %s %s" % (enc_list(list(range(len(cm))), cm, mk), enc_list(lin, cm, mk)))
         expect.append(True)
         if it["edges"]:
@@ -286,6 +632,26 @@ def correspondence(ctx):
         wrong = [i for i, (v, e) in enumerate(zip(vals[0], expect)) if v != e]
         ctx.obligation("validator-discriminates", not wrong, "validator verdict differs from construction on %d of %d linearisations" % (len(wrong), len(expect)))
         ctx.extra["validator_linearisations"] = len(expect)
+
+
+# ------------------------------------------------------------------------------------------------------
+# GBS.compile
+
+def remap_case(rng, n, cmds):
+    """The same circuit on a register of 11-13 modes, the original modes sent to arbitrary distinct indices (one of them >= 10)."""
+    n2 = rng.randint(11, 13)
+    tgt = rng.sample(range(n2), n)
+    if n >= 2 and not any(t >= 10 for t in tgt):
+        tgt[rng.randrange(n)] = rng.choice([t for t in range(10, n2) if t not in tgt])
+    if n >= 2 and not any(2 <= t <= 9 for t in tgt):
+        k = rng.choice([i for i in range(n) if tgt[i] < 10] or [0])
+        tgt[k] = rng.choice([t for t in range(2, 10) if t not in tgt])
+    f = lambda m: tgt[m] if m < n else m - n + n2
+    out = []
+    for kind, modes, dep in cmds:
+        d = None if dep is None else [f(x) for x in dep] if isinstance(dep, (list, tuple)) else f(dep)
+        out.append((kind, [f(m) for m in modes], d))
+    return n2, out
 
 
 def gbs_case(rng):
@@ -333,38 +699,131 @@ def gbs_case(rng):
     return n, cmds
 
 
-def run_gbs(n, cmds):
+def gbs_rich(rng):
+    """A Gaussian part (gates of several families, homodyne / heterodyne measurements and gates fed by them, New-created and deleted modes)
+    and Fock measurements on subsets — mostly a legal GBS circuit, sometimes spoiled by one late command."""
+    n = rng.randint(1, 4)
+    live = list(range(n))
+    total = n
+    cmds = []
+    hom = []
+    for _ in range(rng.randint(0, 7)):
+        r = rng.random()
+        if r < 0.35:
+            cmds.append((rng.choice(["g1", "s1", "d1"]), [rng.choice(live)], None))
+        elif r < 0.55 and len(live) >= 2:
+            cmds.append(("g2", rng.sample(live, 2), None))
+        elif r < 0.67:
+            m = rng.choice(live)
+            cmds.append((rng.choice(["mx", "mhd"]), [m], None))
+            if m not in hom:
+                hom.append(m)
+        elif r < 0.82 and hom:
+            ds = rng.sample(hom, rng.randint(1, min(2, len(hom))))
+            cmds.append((rng.choice(["gp", "gd"]), [rng.choice(live)], ds))
+        elif r < 0.90:
+            k = rng.randint(1, 2)
+            ms = list(range(total, total + k))
+            total += k
+            live += ms
+            cmds.append(("new", ms, None))
+        elif len(live) >= 2:
+            m = rng.choice(live)
+            live.remove(m)
+            if m in hom:
+                hom.remove(m)
+            cmds.append(("del", [m], None))
+    # Fock measurements on disjoint subsets of the live modes (not necessarily all of them), inserted at random places after
+    # the last command touching their modes would be legal; inserting them anywhere tests both outcomes
+    pool = list(live)
+    rng.shuffle(pool)
+    groups = []
+    while pool and len(groups) < 3 and (not groups or rng.random() < 0.6):
+        k = rng.randint(1, len(pool))
+        groups.append(sorted(pool[:k]) if rng.random() < 0.5 else pool[:k])
+        pool = pool[k:]
+    legal = rng.random() < 0.6
+    for g in groups:
+        last = max([i for i, c in enumerate(cmds) if set(spec_deps(c)) & set(g)] + [-1])
+        pos = rng.randint(last + 1, len(cmds)) if legal else rng.randint(0, len(cmds))
+        # keep New before any use of its modes
+        first_ok = max([i for i, c in enumerate(cmds) if c[0] == "new" and set(c[1]) & set(g)] + [-1]) + 1
+        cmds.insert(max(pos, first_ok), ("mf", g, None))
+    r = rng.random()
+    measured = [m for g in groups for m in g]
+    if measured and r < 0.12:
+        cmds.append(("gp", [rng.choice(live)], rng.sample(measured, rng.randint(1, min(2, len(measured))))))
+    elif measured and r < 0.2:
+        cmds.append(("mf", [rng.choice(measured)], None))
+    elif measured and r < 0.27:
+        cmds.append((rng.choice(["del", "g1", "mx"]), [rng.choice(measured)], None))
+    return n, cmds
+
+
+def run_gbs(n, cmds, optimize=False):
     prog = build(n, cmds)
     if prog is None:
         return None
+    idx = {id(c): i for i, c in enumerate(prog.circuit)}
     try:
-        out = prog.compile(compiler="gbs")
+        out = prog.compile(compiler="gbs", optimize=optimize)
     except CircuitError as e:
         return ("error", str(e))
     res = []
     for c in out.circuit:
-        res.append((c.op.__class__.__name__, [r.ind for r in c.reg]))
+        res.append((c.op.__class__.__name__, [r.ind for r in c.reg], idx.get(id(c))))
     return ("ok", res)
 
 
-def search(ctx):
+def judge_gbs_output(n, cmds, outc, ms):
+    """The compiled circuit against the source: (signature, text) of the first thing wrong, or None.
+    ms = sorted union of the Fock-measured modes."""
+    meas = [c for c in outc if c[0] == "MeasureFock"]
+    others = [c for c in outc if c[0] != "MeasureFock"]
+    if len(meas) != 1 or outc[-1][0] != "MeasureFock" or meas[0][1] != ms:
+        return "gbs:measurement-collection", "compiled circuit measures %s, expected one final MeasureFock on %s" % ([m[:2] for m in meas], ms)
+    src = [i for i, c in enumerate(cmds) if c[0] != "mf"]
+    exp = [(KINDS[cmds[i][0]][0], list(cmds[i][1])) for i in src]
+    if sorted(map(repr, [c[:2] for c in others])) != sorted(map(repr, exp)):
+        return "gbs:commands-changed", "compiled Gaussian part %s differs from the source's %s" % ([c[:2] for c in others], exp)
+    got = [c[2] for c in others]
+    if None in got or sorted(got) != src:
+        return "gbs:commands-changed", "the compiled Gaussian part does not consist of the source's Command objects, each once: %s" % got
+    deps = [spec_deps(c) for c in cmds]
+    for w in sorted(py_wires(cmds)):
+        if [i for i in got if w in deps[i]] != [i for i in src if w in deps[i]]:
+            return "gbs:wire-order", "order of the commands depending on mode %d changed: %s" % (w, got)
+    return None
+
+
+def search_gbs(ctx):
     """GBS.compile on the implementation vs the model's collection; plus end-to-end checks."""
     rng = ctx.rng
     cases = []
-    for _ in range(ctx.budget(150, 1500)):
-        n, cmds = gbs_case(rng)
-        r = run_gbs(n, cmds)
-        if r is None:
+    for k in range(ctx.budget(320, 3200)):
+        n, cmds = gbs_case(rng) if k % 2 == 0 else gbs_rich(rng)
+        fam = "gbs" if k % 2 == 0 else "gbsrich"
+        if rng.random() < 0.3:
+            n, cmds = remap_case(rng, n, cmds)
+            fam += "-ge10"
+        cmds = [tuple(c) for c in cmds]
+        opt = merge_free(cmds) and rng.random() < 0.3
+        try:
+            r = run_gbs(n, cmds, optimize=opt)
+        except Exception as e:
+            ctx.counterexample("gbs:raises:%s" % type(e).__name__, "GBS compile raised %r" % e, {"check": "gbs", "n": n, "cmds": cmds, "optimize": opt})
             continue
-        cases.append((n, cmds, r))
+        if r is None:
+            ctx.hist["gbs-rejected-by-frontend"] = ctx.hist.get("gbs-rejected-by-frontend", 0) + 1
+            continue
+        cases.append((n, cmds, r, opt, fam))
     if not cases:
         return
     # model: group via impl's own group_operations is validated in correspondence; here the collection on B
-    lines = ["From Coq Require Import List Arith Bool.", "Import ListNotations.", "From SFV Require Import Base.Reorder C04.Model.",
-             "Definition res (r : gbs_result) : nat * list nat := match r with GbsError e => (e, []) | GbsOk _ m => (0, m) end.", "Definition cases := ["]
+    lines = COQ_HEAD + ["Definition res (r : gbs_result) : nat * list nat := match r with GbsError e => (e, []) | GbsOk _ m => (0, m) end.", "Definition cases := ["]
     rows = []
     meta = []
-    for n, cmds, r in cases:
+    for n, cmds, r, opt, fam in cases:
         prog = build(n, cmds)
         circ = prog.circuit
         idx = {id(c): i for i, c in enumerate(circ)}
@@ -379,57 +838,365 @@ def search(ctx):
     if not ok:
         ctx.obligation("correspondence:gbs", False, raw)
         return
-    for (n, cmds, r), (err, ms), (ia, ib, ic) in zip(cases, vals[0], meta):
+    for (n, cmds, r, opt, fam), (err, ms), (ia, ib, ic) in zip(cases, vals[0], meta):
         nmf = sum(1 for c in cmds if c[0] == "mf")
-        ctx.case({"n": n, "cmds": cmds, "impl": r[0]}, nontrivial=nmf >= 2 or (nmf == 1 and r[0] == "ok" and len(cmds) > 2), bucket="gbs-%s" % r[0])
-        data = {"check": "gbs", "n": n, "cmds": cmds}
+        ctx.case({"n": n, "cmds": cmds, "impl": r[0]}, nontrivial=nmf >= 2 or (nmf == 1 and r[0] == "ok" and len(cmds) > 2), bucket="%s-%s" % (fam, r[0]))
+        data = {"check": "gbs", "n": n, "cmds": cmds, "optimize": opt}
+        why = gbs_oracle(cmds)
         if r[0] == "error":
             if err == 0:
                 ctx.counterexample("gbs:rejects-valid", "GBS compile raised %r on a circuit the model accepts" % r[1], data)
+            elif why is None:
+                ctx.counterexample("gbs:rejects-valid:grouping", "GBS compile raised %r although every Fock measurement can be moved to the end of the circuit and no mode "
+                                   "is measured twice (group_operations returned A=%s B=%s C=%s)" % (r[1], ia, ib, ic), data)
             continue
         if err != 0:
             ctx.counterexample("gbs:accepts-invalid:%d" % err, "GBS compile accepted a circuit that must be rejected (model error %d)" % err, data)
             continue
-        outc = r[1]
-        meas = [c for c in outc if c[0] == "MeasureFock"]
-        others = [c for c in outc if c[0] != "MeasureFock"]
-        if len(meas) != 1 or outc[-1][0] != "MeasureFock" or meas[0][1] != ms:
-            ctx.counterexample("gbs:measurement-collection", "compiled circuit measures %s, expected one final MeasureFock on %s" % (meas, ms), data)
+        if why is not None:
+            ctx.counterexample("gbs:accepts-invalid:%s" % why, "GBS compile accepted a circuit that is not a GBS circuit (%s)" % why, data)
             continue
-        # the non-measurement part must be the commands of A with the same per-wire order
-        NAME = {"g1": "Rgate", "g2": "BSgate", "del": "_Delete", "gp": "Rgate"}
-        exp = [(NAME[cmds[i][0]], cmds[i][1]) for i in ia]
-        if sorted(map(repr, others)) != sorted(map(repr, exp)):
-            ctx.counterexample("gbs:commands-changed", "compiled Gaussian part %s differs from the source's %s" % (others, exp), data)
-            continue
-        for w in range(n):
-            if [c for c in others if w in c[1]] != [c for c in [(NAME[k], m) for k, m, _ in cmds if k != "mf"] if w in c[1]]:
-                ctx.counterexample("gbs:wire-order", "order of the commands on wire %d changed" % w, data)
-                break
+        bad = judge_gbs_output(n, cmds, r[1], ms)
+        if bad:
+            ctx.counterexample(bad[0], bad[1], data)
     ctx.traces += len(cases)
 
+
+# ------------------------------------------------------------------------------------------------------
+# Program.optimize / Program.compile / Program.equivalence / gaussian_merge
+
+def judge_relinearised(cmds, circ_in, circ_out, exact):
+    """circ_out (Commands) as a re-linearisation of circ_in (aligned with cmds).  exact: no merge is possible, the output must be a
+    permutation.  Otherwise plain single-mode gates may have been merged or cancelled; everything else must survive as the same object,
+    in the same order on every wire, and a new command can only be a plain single-mode gate.  Returns (reason, text) or None; second
+    value: the index list (None for new commands)."""
+    idx = {id(c): i for i, c in enumerate(circ_in)}
+    got = [idx.get(id(c)) for c in circ_out]
+    known = [i for i in got if i is not None]
+    if exact:
+        if None in got:
+            return ("command-changed", "the output contains a command that is not in the input: %s" % got), got
+        why = py_check_lin(cmds, got)
+        return ((why, "output order %s" % got) if why else None), got
+    if len(set(known)) != len(known):
+        return ("command-duplicated", "a command appears twice: %s" % got), got
+    deps = [spec_deps(c) for c in cmds]
+    keep = [i for i, c in enumerate(cmds) if family(c) is None]
+    if set(keep) - set(known):
+        return ("command-lost", "commands %s (not mergeable) are missing from the output" % sorted(set(keep) - set(known))), got
+    for w in sorted(py_wires(cmds)):
+        if [i for i in known if w in deps[i]] != [i for i in range(len(cmds)) if i in set(known) and w in deps[i]]:
+            return ("wire-order", "the surviving commands depending on mode %d changed their order: %s" % (w, got)), got
+    for c, i in zip(circ_out, got):
+        if i is None:
+            dn = sorted({r.ind for r in c.reg} | {r.ind for r in c.op.measurement_deps})
+            if len(c.reg) != 1 or len(dn) != 1 or c.op.__class__.__name__ not in ("Rgate", "Sgate", "Dgate", "Kgate", "Vgate"):
+                return ("foreign-command", "the output contains the new command %s, which cannot come from merging two plain single-mode gates" % c), got
+    # per wire the number of commands can only shrink
+    cnt_in = {w: len(q) for w, q in py_wires(cmds).items()}
+    cnt_out = {}
+    for c in circ_out:
+        for m in {r.ind for r in c.reg} | {r.ind for r in c.op.measurement_deps}:
+            cnt_out[m] = cnt_out.get(m, 0) + 1
+    for w, k in cnt_out.items():
+        if k > cnt_in.get(w, 0):
+            return ("command-duplicated", "mode %d carries %d commands after the pass, %d before" % (w, k, cnt_in.get(w, 0))), got
+    return None, got
+
+
+def ref_graph(cmds):
+    G = nx.DiGraph()
+    for i, c in enumerate(cmds):
+        name = KINDS[c[0]][0]
+        w = tuple(c[1]) if len(c[1]) > 1 and c[0] not in MEASURE else 0
+        G.add_node(i, l=(name, w))
+    G.add_edges_from(py_edges(cmds))
+    return G
+
+
+def ref_equivalent(c1, c2):
+    return nx.is_isomorphic(ref_graph(c1), ref_graph(c2), node_match=lambda a, b: a["l"] == b["l"])
+
+
+def new_chain(cmds):
+    ns = [i for i, c in enumerate(cmds) if c[0] == "new"]
+    return list(zip(ns, ns[1:]))
+
+
+def prog_case(rng, palette):
+    n, focus = pick_register(rng)
+    style = rng.random()
+    if style < 0.45:
+        singles = ("g1", "s1", "d1") if palette == "compile" else ("g1", "s1", "d1", "k1", "v1")  # few merges
+    elif style < 0.75:
+        singles = ("g1", "g1i")  # many merges and cancellations (wires may become empty)
+    else:
+        singles = ("g1", "g1i", "s1")
+    return n, [tuple(c) for c in rich_cmds(rng, n, focus, rng.randint(1, 12), palette=palette, singles=singles)]
+
+
+def run_relinearise(site, n, cmds, compiler=None, optimize=False):
+    """(status, info): run one re-linearising entry point of Program and judge the result."""
+    prog = build(n, cmds)
+    if prog is None:
+        return "rejected", None
+    circ_in = list(prog.circuit)
+    try:
+        if site == "optimize":
+            out = prog.optimize().circuit
+        else:
+            out = prog.compile(compiler=compiler, optimize=optimize).circuit
+    except CircuitError as e:
+        return "circuit-error", str(e)
+    exact = (site == "compile" and not optimize) or merge_free(cmds)
+    bad, got = judge_relinearised(cmds, circ_in, list(out), exact)
+    if site == "compile" and not optimize and bad is None and got != list(range(len(cmds))):
+        # without the optimiser these compilers hand the decomposed sequence through: any other order is still legal, just noted
+        pass
+    return ("bad" if bad else "ok"), (bad, got, exact)
+
+
+def search_prog(ctx):
+    rng = ctx.rng
+    jobs = []  # (signature prefix, data, cmds, got) validated in Coq as well
+    for k in range(ctx.budget(260, 2600)):
+        site = "optimize" if k % 2 == 0 else "compile"
+        n, cmds = prog_case(rng, "prog" if site == "optimize" else "compile")
+        compiler, opt = None, False
+        if site == "compile":
+            compiler = rng.choice(["gaussian", "fock", "bosonic"])
+            opt = rng.random() < 0.6
+        data = {"check": site, "n": n, "cmds": cmds, "compiler": compiler, "optimize": opt}
+        name = site if site == "optimize" else "compile:%s%s" % (compiler, "+optimize" if opt else "")
+        try:
+            st, info = run_relinearise(site, n, cmds, compiler, opt)
+        except Exception as e:
+            ctx.counterexample("%s:raises:%s" % (site, type(e).__name__), "%s raised %r" % (name, e), data)
+            continue
+        if st in ("rejected", "circuit-error"):
+            ctx.hist["%s-%s" % (site, st)] = ctx.hist.get("%s-%s" % (site, st), 0) + 1
+            continue
+        bad, got, exact = info
+        mf_ = merge_free(cmds)
+        ctx.case({"site": name, "n": n, "cmds": cmds}, nontrivial=len(py_edges(cmds)) >= 2 and any(c[0] in ("gp", "gd", "g2p", "del", "new") for c in cmds),
+                 bucket="%s-%s" % (site, "exact" if exact else "merging"))
+        if bad:
+            ctx.counterexample("%s:%s" % (site, bad[0]), "%s: %s" % (name, bad[1]), data)
+            continue
+        if exact:
+            jobs.append(("%s:validator" % site, data, cmds, got))
+    verdicts = coq_check_lins(ctx, "cases_prog", [(j[2], j[3]) for j in jobs])
+    if verdicts is not None:
+        for (sig, data, cmds, got), v in zip(jobs, verdicts):
+            if not v:
+                ctx.counterexample(sig, "the proved validator rejects the output order %s" % got, data)
+    ctx.traces += len(jobs)
+
+
+def equiv_pair(rng, n, cmds, legal):
+    """A second spec: a random legal re-linearisation, or one with two dependent commands exchanged."""
+    edges = py_edges(cmds)
+    order = random_topo(rng, len(cmds), edges + new_chain(cmds))
+    if not legal:
+        if not edges:
+            return None
+        a, b = rng.choice(edges)
+        ia, ib = order.index(a), order.index(b)
+        order[ia], order[ib] = order[ib], order[ia]
+    return [cmds[i] for i in order]
+
+
+def run_equiv(n, c1, c2):
+    p1, p2 = build(n, c1), build(n, c2)
+    if p1 is None or p2 is None:
+        return None
+    return bool(p1.equivalence(p2, compare_params=False)), bool(p2.equivalence(p1, compare_params=False))
+
+
+def search_equiv(ctx):
+    rng = ctx.rng
+    for k in range(ctx.budget(160, 1600)):
+        n, focus = pick_register(rng)
+        cmds = [tuple(c) for c in rich_cmds(rng, n, focus, rng.randint(2, 9), palette="prog", singles=("g1", "s1", "d1", "k1"))]
+        cmds = [c for c in cmds if c[0] != "g2p"]  # a beam splitter with an unmeasured parameter cannot be evaluated by equivalence
+        if build(n, cmds) is None:
+            continue
+        legal = k % 2 == 0
+        c2 = equiv_pair(rng, n, cmds, legal)
+        if c2 is None:
+            continue
+        data = {"check": "equiv", "n": n, "cmds": cmds, "cmds2": c2}
+        try:
+            r = run_equiv(n, cmds, c2)
+        except Exception as e:
+            ctx.counterexample("equivalence:raises:%s" % type(e).__name__, "Program.equivalence raised %r" % e, data)
+            continue
+        if r is None:
+            continue
+        exp = ref_equivalent(cmds, c2)
+        ctx.case({"site": "equivalence", "n": n, "cmds": cmds, "cmds2": c2}, nontrivial=len(py_edges(cmds)) >= 2, bucket="equiv-%s-%s" % ("legal" if legal else "swapped", exp))
+        if legal and not exp:
+            raise AssertionError("harness: a legal re-linearisation changed the reference DAG")
+        if r[0] != r[1]:
+            ctx.counterexample("equivalence:asymmetric", "a.equivalence(b) = %s but b.equivalence(a) = %s" % r, data)
+        elif exp and not r[0]:
+            ctx.counterexample("equivalence:rejects-relinearisation", "two linearisations of one dependency DAG are reported as not equivalent", data)
+        elif not exp and r[0]:
+            ctx.counterexample("equivalence:ignores-order", "exchanging two commands that share a mode or a measured parameter gives a program reported as equivalent", data)
+
+
+GM_GAUSS = ("g1", "s1", "g2")
+GM_NONG = ("k1", "v1")
+
+
+def gmerge_case(rng):
+    """Hybrid circuits of the two families in which gaussian_merge has no recorded defect (those are C11's): everything on one mode, or a
+    displacement-free Gaussian block followed only by non-Gaussian gates.  Only the re-ordering is judged here."""
+    if rng.random() < 0.5:
+        n = rng.choice([1, 3, 12])
+        m = n - 1
+        cmds = [(rng.choice(("g1", "s1") if rng.random() < 0.6 else GM_NONG), [m], None) for _ in range(rng.randint(2, 8))]
+        return n, cmds, "1mode"
+    n = rng.randint(2, 4)
+    cmds = []
+    for _ in range(rng.randint(1, 6)):
+        k = rng.choice(GM_GAUSS)
+        cmds.append((k, rng.sample(range(n), 2) if k == "g2" else [rng.randrange(n)], None))
+    for _ in range(rng.randint(1, 4)):
+        cmds.append((rng.choice(GM_NONG), [rng.randrange(n)], None))
+    return n, cmds, "block"
+
+
+def run_gmerge(n, cmds):
+    prog = build(n, cmds)
+    if prog is None:
+        return None
+    circ_in = list(prog.circuit)
+    out = list(prog.compile(compiler="gaussian_merge").circuit)
+    idx = {id(c): i for i, c in enumerate(circ_in)}
+    got = [idx.get(id(c)) for c in out]
+    modes_out = [sorted(r.ind for r in c.reg) for c in out]
+    return got, modes_out, [c.op.__class__.__name__ for c in out]
+
+
+def judge_gmerge(cmds, got, modes_out, names):
+    """Non-Gaussian commands are never merged: each survives once, in the same order on its mode; between two of them on a mode the
+    output has a Gaussian command iff the input has one (a merged block may not jump over a non-Gaussian gate)."""
+    keep = [i for i, c in enumerate(cmds) if c[0] in GM_NONG]
+    known = [i for i in got if i is not None]
+    if len(set(known)) != len(known):
+        return "command-duplicated", "a command appears twice: %s" % got
+    if set(keep) - set(known):
+        return "command-lost", "non-Gaussian commands %s are missing" % sorted(set(keep) - set(known))
+    for w in sorted(py_wires(cmds)):
+        src = [("N", i) if cmds[i][0] in GM_NONG else ("G", None) for i in range(len(cmds)) if w in cmds[i][1]]
+        dst = [("N", i) if (i is not None and cmds[i][0] in GM_NONG) else ("G", None) for i, ms in zip(got, modes_out) if w in ms]
+        squeeze = lambda s: [x for j, x in enumerate(s) if x[0] == "N" or j == 0 or s[j - 1][0] == "N"]
+        if squeeze(src) != squeeze(dst):
+            return "wire-order", "on mode %d the pattern of non-Gaussian commands and Gaussian blocks changed from %s to %s" % (w, squeeze(src), squeeze(dst))
+    return None
+
+
+def search_gmerge(ctx):
+    rng = ctx.rng
+    for _ in range(ctx.budget(50, 500)):
+        n, cmds, fam = gmerge_case(rng)
+        cmds = [tuple(c) for c in cmds]
+        data = {"check": "gmerge", "n": n, "cmds": cmds}
+        try:
+            r = run_gmerge(n, cmds)
+        except CircuitError:
+            continue
+        except Exception as e:
+            ctx.counterexample("gaussian_merge:raises:%s" % type(e).__name__, "gaussian_merge raised %r" % e, data)
+            continue
+        if r is None:
+            continue
+        ctx.case({"site": "gaussian_merge", "n": n, "cmds": cmds}, nontrivial=any(c[0] in GM_NONG for c in cmds) and any(c[0] in GM_GAUSS for c in cmds), bucket="gmerge-" + fam)
+        bad = judge_gmerge(cmds, *r)
+        if bad:
+            ctx.counterexample("gaussian_merge:%s" % bad[0], "gaussian_merge (%s family): %s" % (fam, bad[1]), data)
+
+
+def search(ctx):
+    search_gbs(ctx)
+    search_prog(ctx)
+    search_equiv(ctx)
+    search_gmerge(ctx)
+
+
+# ------------------------------------------------------------------------------------------------------
 
 def replay(ctx, data):
     d = data["data"]
     n, cmds = d["n"], [tuple(c) for c in d["cmds"]]
-    if d.get("check") == "gbs":
-        r = run_gbs(n, cmds)
+    kind = d.get("check")
+    if kind == "gbs":
+        r = run_gbs(n, cmds, optimize=bool(d.get("optimize")))
         print("gbs compile:", r)
-        return True  # the comparison needs the model; a replayed gbs case is re-judged by running the check
-    prog = build(n, cmds)
+        if r is None:
+            return False
+        why = gbs_oracle(cmds)
+        if r[0] == "error":
+            return why is None
+        if why is not None:
+            return True
+        ms = sorted(m for c in cmds if c[0] == "mf" for m in c[1])
+        return judge_gbs_output(n, cmds, r[1], ms) is not None
+    if kind in ("optimize", "compile"):
+        try:
+            st, info = run_relinearise(kind, n, cmds, d.get("compiler"), bool(d.get("optimize")))
+        except Exception as e:
+            print("raised", repr(e))
+            return True
+        print(st, info)
+        return st == "bad"
+    if kind == "equiv":
+        c2 = [tuple(c) for c in d["cmds2"]]
+        try:
+            r = run_equiv(n, cmds, c2)
+        except Exception as e:
+            print("raised", repr(e))
+            return True
+        print("equivalence:", r, "reference:", ref_equivalent(cmds, c2))
+        return r is not None and (r[0] != r[1] or r[0] != ref_equivalent(cmds, c2))
+    if kind == "gmerge":
+        try:
+            r = run_gmerge(n, cmds)
+        except CircuitError:
+            return False
+        except Exception as e:
+            print("raised", repr(e))
+            return True
+        print("gaussian_merge:", r)
+        return r is not None and judge_gmerge(cmds, *r) is not None
+    prog, circ = circuit_of(n, cmds)
     if prog is None:
         print("front end rejects the sequence")
         return False
-    grid_ids, edges, nodes, out, out2, idx = impl_views(prog)
-    print("grid", grid_ids, "edges", edges, "out", out)
+    try:
+        v = impl_views(circ, rounds=3)
+    except Exception as e:
+        print("raised", repr(e))
+        return True
+    print("grid", v["grid"], "edges", v["edges"], "outs", v["outs"])
     # independent re-check in python: every wire keeps its order
-    deps = [spec_deps(c) for c in cmds]
     bad = False
-    for o in (out, out2):
-        for w in range(n):
-            if [i for i in o if w in deps[i]] != [i for i in range(len(cmds)) if w in deps[i]]:
-                bad = True
-    for w in range(n):
-        if grid_ids.get(w, []) != [i for i in range(len(cmds)) if w in deps[i]]:
+    for o in v["outs"]:
+        if py_check_lin(cmds, o) is not None:
+            bad = True
+    if {w: q for w, q in v["grid"].items() if q} != py_wires(cmds):
+        bad = True
+    if v["edges"] != py_edges(cmds) or v["edges_l"] != py_edges(cmds):
+        bad = True
+    marks = d.get("marks")
+    if marks and len(marks) == len(cmds):
+        try:
+            marks, (A, B, C) = impl_group(circ, v["idx"], marks)
+        except Exception as e:
+            print("group_operations raised", repr(e))
+            return True
+        print("group", A, B, C)
+        if py_check_lin(cmds, A + B + C) is not None or any(marks[i] for i in A + C) or (not B and C) or set(A) != leading_part(cmds, marks):
             bad = True
     return bad
